@@ -935,6 +935,8 @@ func (fr *Frame) checkBackEdges(p *ssa.BasicBlock) {
 			continue
 		}
 		guard := vc.define("backedge", fr.edgeCond(p, h))
+		// vacuity probe: the end of the loop body must be reachable under the assumed invariants
+		vc.canary(fmt.Sprintf("loop%d/backedge@b%d", li.ord, backEdgeOrdinal(h, p)), guard)
 		phiB := map[*ssa.Phi]*Term{}
 		for _, in := range h.Instrs {
 			phi, ok := in.(*ssa.Phi)
